@@ -20,6 +20,7 @@ fn main() {
     let n_faithful: u64 = arg(&args, "--faithful").and_then(|s| s.parse().ok()).unwrap_or(0);
     let n_wrap: u64 = arg(&args, "--wrap").and_then(|s| s.parse().ok()).unwrap_or(0);
     let len: usize = arg(&args, "--len").and_then(|s| s.parse().ok()).unwrap_or(60);
+    if args.iter().any(|a| a == "--state") { verif_harness::sim::STATE_EVENTS.store(true, std::sync::atomic::Ordering::Relaxed); }
     let mut scripts: Vec<Script> = Vec::new();
     if args.iter().any(|a| a == "--regress") { for (_, s) in regress::scripts() { scripts.push(s); } }
     if let Some(path) = arg(&args, "--scripts-in") {
